@@ -2,7 +2,7 @@
    Scope: "regular" words = unparse of a tree of plain runs and comma groups with at least two alternatives,
    nested to any depth (no '.', no backslash, every brace closed). For these words the stack splitter
    + bracesSeqRec and bash's gobbler-based recursion compute the same list. *)
-From Verif Require Import Base.Str Proofs.StrProofs Expand.Braces Proofs.BracesProofs.
+From Verif Require Import Base.Str Proofs.StrProofs Expand.Braces Proofs.BracesProofs Proofs.BracesSeqProofs Proofs.BracesSeqTermProofs.
 Require Import ZifyN ZifyNat ZifyBool.
 Open Scope N_scope.
 
@@ -11,6 +11,7 @@ Open Scope N_scope.
 Inductive wt : Type :=
 | WEnd (p : str)                                            (* plain text *)
 | WGroup (p : str) (a : wt) (more : alts) (rest : wt)       (* p { a , more... } rest : at least two alternatives *)
+| WSeq (p : str) (d : sq) (rest : wt)                       (* p { x..y[..n] } rest : a clean sequence *)
 with alts : Type :=
 | AOne (t : wt)
 | ACons (t : wt) (more : alts).
@@ -26,6 +27,7 @@ Fixpoint ok_wt (t : wt) : bool :=
   match t with
   | WEnd p => plain p
   | WGroup p a more rest => plain p && ok_wt a && ok_alts more && ok_wt rest
+  | WSeq p d rest => plain p && sq_okb d && ok_wt rest
   end
 with ok_alts (m : alts) : bool :=
   match m with
@@ -38,6 +40,7 @@ Fixpoint U (t : wt) : str :=
   match t with
   | WEnd p => p
   | WGroup p a more rest => p ++ LB :: U a ++ COMMA :: UA more ++ RB :: U rest
+  | WSeq p d rest => p ++ LB :: sq_text d ++ RB :: U rest
   end
 with UA (m : alts) : str :=
   match m with
@@ -51,13 +54,13 @@ Fixpoint T (t : wt) : list str :=
   match t with
   | WEnd p => [p]
   | WGroup p a more rest => prod (prod [p] (T a ++ TA more)) (T rest)
+  | WSeq p d rest => prod (prod [p] (sq_vals d)) (T rest)
   end
 with TA (m : alts) : list str :=
   match m with
   | AOne t => T t
   | ACons t more => T t ++ TA more
   end.
-Definition lim (X : list str) : sres := if Nat.ltb limit (length X) then Many else Words X.
 
 (* ------------------------------------------------------------------ small facts *)
 
@@ -117,6 +120,43 @@ Qed.
 Lemma meta_rb_comma : forall sat, sat = RB \/ sat = COMMA -> is_meta sat = true.
 Proof. intros sat [-> | ->]; reflexivity. Qed.
 
+Lemma gobble_plain_f : forall p, plain p = true -> forall sat level commas rest, is_meta sat = true ->
+  gobble sat level commas false (p ++ rest) = pre_opt p (gobble sat level commas false rest).
+Proof. intros. rewrite gobble_plain by auto. destruct p; reflexivity. Qed.
+
+Lemma gobble_dot_in : forall sat level commas rest, sat = RB \/ sat = COMMA ->
+  gobble sat (S level) commas false (DOT :: rest) = pre_opt [DOT] (gobble sat (S level) commas false rest).
+Proof. intros sat level commas rest [-> | ->]; cbn [gobble]; simpl; reflexivity. Qed.
+
+Lemma alnum_plain : forall s, alnum s = true -> plain s = true.
+Proof.
+  induction s as [|c s IH]; intros H; [reflexivity|]. simpl in H. apply andb_prop in H. destruct H as [Hc Hs].
+  unfold plain in *. simpl. rewrite (IH Hs), andb_true_r. unfold is_meta.
+  unfold is_digit, ascii_letter, MINUS, LB, RB, COMMA, DOT, BS in *. lia.
+Qed.
+
+(* what [sq_okb] gives about the text of a sequence *)
+Lemma sq_plain : forall d, sq_okb d = true ->
+  plain (sx d) = true /\ plain (sy d) = true /\ sx d <> [] /\ sy d <> []
+  /\ match sn d with Some n => plain n = true /\ n <> [] | None => True end.
+Proof.
+  intros d H. destruct (sq_agree d H) as (_ & _ & _ & _ & _ & Ax & Ay & Nx & Ny & Hn).
+  repeat split; auto using alnum_plain. destruct (sn d); [|exact I]. destruct Hn. split; auto using alnum_plain.
+Qed.
+
+Lemma gobble_sqtext : forall d, sq_okb d = true -> forall sat level commas rest, sat = RB \/ sat = COMMA ->
+  gobble sat (S level) commas false (sq_text d ++ rest) = pre_opt (sq_text d) (gobble sat (S level) commas false rest).
+Proof.
+  intros d H sat level commas rest Hs. destruct (sq_plain d H) as (Px & Py & _ & _ & Hn).
+  pose proof (meta_rb_comma sat Hs) as Hm.
+  unfold sq_text, sq_tail. rewrite <- !app_assoc. rewrite gobble_plain_f by auto. simpl app.
+  rewrite !gobble_dot_in by exact Hs. rewrite <- !app_assoc. rewrite gobble_plain_f by auto.
+  destruct (sn d) as [n|].
+  - destruct Hn as [Pn _]. simpl app. rewrite !gobble_dot_in by exact Hs. rewrite gobble_plain_f by auto.
+    rewrite !pre_opt_pre_opt. f_equal. rewrite <- !app_assoc. reflexivity.
+  - simpl app. rewrite !pre_opt_pre_opt. f_equal. rewrite <- !app_assoc, ?app_nil_r. reflexivity.
+Qed.
+
 (* regular text is transparent for a search for '}' or ',' *)
 Lemma gobble_U :
   (forall t, ok_wt t = true -> forall sat level commas rest, sat = RB \/ sat = COMMA ->
@@ -144,6 +184,13 @@ Proof.
       rewrite (IHr Hr sat level commas rest Hs).
       rewrite !pre_opt_pre_opt. f_equal. rewrite <- !app_assoc. reflexivity. }
     rewrite E0, pre_opt_pre_opt. reflexivity.
+  - intros p d rest0 IHr Hok sat level commas rest Hs. simpl in Hok.
+    apply andb_prop in Hok. destruct Hok as [Hok Hr]. apply andb_prop in Hok. destruct Hok as [Hp Hd].
+    simpl U. rewrite <- !app_assoc. rewrite gobble_plain_f by (auto using meta_rb_comma).
+    simpl app. rewrite gobble_lb_step by exact Hs.
+    rewrite <- !app_assoc. rewrite (gobble_sqtext d Hd sat level commas _ Hs).
+    simpl app. rewrite gobble_rb_in by exact Hs. rewrite (IHr Hr sat level commas rest Hs).
+    rewrite !pre_opt_pre_opt. f_equal. rewrite <- !app_assoc. reflexivity.
   - intros t IHt Hok sat level commas rest Hs. simpl in *. now apply IHt.
   - intros t IHt more IHm Hok sat level commas rest Hs. simpl in Hok. apply andb_prop in Hok. destruct Hok as [Ht Hm].
     simpl UA. rewrite <- !app_assoc. rewrite (IHt Ht sat (S level) commas _ Hs).
@@ -158,11 +205,14 @@ Definition gobble_U_alts := proj2 gobble_U.
 Lemma U_head : forall t x, ok_wt t = true ->
   match U t ++ COMMA :: x with [] => true | d :: _ => d =? RB end = false.
 Proof.
-  intros t x H. destruct t as [p|p a more rest]; simpl in *.
-  - destruct p as [|c p]; [reflexivity|]. destruct (plain_cons _ _ H) as (_ & H2 & _). simpl. now apply N.eqb_neq.
+  intros t x H.
+  assert (HP: forall p y, plain p = true -> match (p ++ LB :: y) ++ COMMA :: x with [] => true | d :: _ => d =? RB end = false).
+  { intros p y Hp. destruct p as [|c p]; [reflexivity|]. destruct (plain_cons _ _ Hp) as (_ & H2 & _). simpl. now apply N.eqb_neq. }
+  destruct t as [p|p a more rest|p d rest]; simpl in H.
+  - simpl. destruct p as [|c p]; [reflexivity|]. destruct (plain_cons _ _ H) as (_ & H2 & _). simpl. now apply N.eqb_neq.
   - apply andb_prop in H. destruct H as [H _]. apply andb_prop in H. destruct H as [H _].
-    apply andb_prop in H. destruct H as [H _].
-    destruct p as [|c p]; [reflexivity|]. destruct (plain_cons _ _ H) as (_ & H2 & _). simpl. now apply N.eqb_neq.
+    apply andb_prop in H. destruct H as [H _]. simpl U. now apply HP.
+  - apply andb_prop in H. destruct H as [H _]. apply andb_prop in H. destruct H as [H _]. simpl U. now apply HP.
 Qed.
 
 (* looking for '{' : plain text is skipped, the first '{' is found *)
@@ -220,7 +270,80 @@ Proof.
   - right. right. apply (U_head a _ Ha).
 Qed.
 
+(* a sequence group: the ".." make its '}' acceptable *)
+Ltac evalc := repeat match goal with
+  | |- context [N.eqb ?a ?b] =>
+      tryif is_var a then fail else (let v := eval vm_compute in (N.eqb a b) in progress change (N.eqb a b) with v)
+  end.
+
+Lemma gobble_rb_dotdot : forall commas y0 r, is_meta y0 = false ->
+  gobble RB 0 commas false (DOT :: DOT :: y0 :: r) = pre_opt [DOT; DOT] (gobble RB 0 (S commas) false (y0 :: r)).
+Proof.
+  intros commas y0 r H. unfold is_meta in H.
+  repeat (apply orb_false_iff in H; destruct H as [H ?]).
+  assert (E1: (y0 =? RB) = false) by assumption. assert (E2: (y0 =? DOT) = false) by assumption.
+  cbn [gobble starts_dotdot third_is]. evalc. cbn [andb orb negb fst snd Nat.eqb Nat.ltb Nat.leb]. rewrite E1.
+  cbn [andb orb negb fst snd]. rewrite E2. cbn [andb orb negb fst snd]. rewrite pre_opt_pre_opt. reflexivity.
+Qed.
+
+Lemma plain_head_meta : forall s r, plain s = true -> s <> [] -> exists y0 y', s ++ r = y0 :: y' /\ is_meta y0 = false.
+Proof.
+  intros [|c s] r H N; [congruence|]. exists c, (s ++ r). split; [reflexivity|].
+  unfold plain in H. simpl in H. apply andb_prop in H. destruct H as [H _]. now apply negb_true_iff.
+Qed.
+
+Lemma gobble_rb_dotdot_plain : forall commas s r, plain s = true -> s <> [] ->
+  gobble RB 0 commas false (DOT :: DOT :: s ++ r) = pre_opt (DOT :: DOT :: s) (gobble RB 0 (S commas) false r).
+Proof.
+  intros commas [|c s] r H N; [congruence|].
+  assert (M: is_meta c = false).
+  { unfold plain in H. simpl in H. apply andb_prop in H. destruct H as [H _]. now apply negb_true_iff. }
+  change ((c :: s) ++ r) with (c :: (s ++ r)). rewrite gobble_rb_dotdot by exact M.
+  change (c :: (s ++ r)) with ((c :: s) ++ r). rewrite gobble_plain_f by auto. now rewrite pre_opt_pre_opt.
+Qed.
+
+Lemma find_close_seq : forall d rest, sq_okb d = true -> find_close (sq_text d ++ RB :: rest) = Some (sq_text d, rest).
+Proof.
+  intros d rest H. destruct (sq_plain d H) as (Px & Py & Nx & Ny & Hn).
+  unfold find_close, sq_text, sq_tail. rewrite <- !app_assoc. rewrite gobble_plain_f by auto. simpl app.
+  rewrite <- !app_assoc. rewrite gobble_rb_dotdot_plain by assumption.
+  destruct (sn d) as [n|].
+  - destruct Hn as [Pn Nn]. simpl app. rewrite gobble_rb_dotdot_plain by assumption.
+    rewrite gobble_rb_close. simpl. rewrite <- ?app_assoc. simpl. rewrite ?app_nil_r. reflexivity.
+  - simpl app. rewrite gobble_rb_close. simpl. rewrite <- ?app_assoc, ?app_nil_r. simpl. rewrite ?app_nil_r. reflexivity.
+Qed.
+
+Lemma sq_text_head : forall d x, sq_okb d = true ->
+  match sq_text d ++ x with [] => true | c :: _ => c =? RB end = false.
+Proof.
+  intros d x H. destruct (sq_plain d H) as (Px & _ & Nx & _). unfold sq_text.
+  destruct (sx d) as [|c s]; [congruence|]. destruct (plain_cons _ _ Px) as (_ & H2 & _). simpl. now apply N.eqb_neq.
+Qed.
+
+Lemma find_brace_seq : forall n p d rest, plain p = true -> sq_okb d = true ->
+  find_brace (S n) true [] (U (WSeq p d rest)) = Some (p, sq_text d, U rest).
+Proof.
+  intros n p d rest Hp Hd. simpl U. cbn [find_brace].
+  rewrite gobble_lb_plain; [|exact Hp|].
+  - rewrite find_close_seq by assumption. reflexivity.
+  - right. right. now apply sq_text_head.
+Qed.
+
 (* the level-unaware comma test *)
+Lemma plain_no_bs : forall p, plain p = true -> Forall (fun c => c <> BS) p.
+Proof.
+  induction p as [|c p IH]; intros H; [constructor|]. destruct (plain_cons _ _ H) as (_ & _ & _ & _ & H5 & Hp').
+  constructor; auto.
+Qed.
+
+Lemma sq_text_no_bs : forall d, sq_okb d = true -> Forall (fun c => c <> BS) (sq_text d).
+Proof.
+  intros d H. destruct (sq_plain d H) as (Px & Py & _ & _ & Hn). unfold sq_text, sq_tail.
+  apply Forall_app. split; [now apply plain_no_bs|]. constructor; [discriminate|]. constructor; [discriminate|].
+  apply Forall_app. split; [now apply plain_no_bs|]. destruct (sn d); [|constructor].
+  destruct Hn as [Pn _]. constructor; [discriminate|]. constructor; [discriminate|]. now apply plain_no_bs.
+Qed.
+
 Lemma no_bs_U :
   (forall t, ok_wt t = true -> Forall (fun c => c <> BS) (U t)) /\
   (forall m, ok_alts m = true -> Forall (fun c => c <> BS) (UA m)).
@@ -236,6 +359,10 @@ Proof.
     apply Forall_app. split; [now apply HP|]. constructor; [discriminate|].
     apply Forall_app. split; [now apply IHa|]. constructor; [discriminate|].
     apply Forall_app. split; [now apply IHm|]. constructor; [discriminate|]. now apply IHr.
+  - intros p d rest IHr Hok. simpl in Hok.
+    apply andb_prop in Hok. destruct Hok as [Hok Hr]. apply andb_prop in Hok. destruct Hok as [Hp Hd]. simpl.
+    apply Forall_app. split; [now apply HP|]. constructor; [discriminate|].
+    apply Forall_app. split; [now apply sq_text_no_bs|]. constructor; [discriminate|]. now apply IHr.
   - intros t IHt H. now apply IHt.
   - intros t IHt more IHm Hok. simpl in Hok. apply andb_prop in Hok. destruct Hok as [Ht Hm]. simpl.
     apply Forall_app. split; [now apply IHt|]. constructor; [discriminate|]. now apply IHm.
@@ -270,6 +397,9 @@ Fixpoint E (t : wt) : sres :=
   | WGroup p a more rest =>
       let r := sprod (Words [p]) (sapp (E a) (EA more)) in
       match U rest with [] => r | _ => sprod r (E rest) end
+  | WSeq p d rest =>
+      let r := sprod (Words [p]) (lim (sq_vals d)) in
+      match U rest with [] => r | _ => sprod r (E rest) end
   end
 with EA (m : alts) : sres :=
   match m with
@@ -281,6 +411,7 @@ Fixpoint need (t : wt) : nat :=
   match t with
   | WEnd _ => 1
   | WGroup _ a more rest => S (Nat.max (S (Nat.max (need a) (needA more))) (need rest))
+  | WSeq _ _ rest => S (need rest)
   end
 with needA (m : alts) : nat :=
   match m with
@@ -331,6 +462,16 @@ Proof.
     rewrite amb_cons by exact Ha.
     rewrite (IHa Ha f) by lia. rewrite (IHm Hm f) by lia.
     assert (Er: bexp (S f) (U rest) = E rest) by (apply (IHr Hr); lia).
+    cbn [E]. destruct (U rest) eqn:EU; [reflexivity|]. rewrite Er. reflexivity.
+  - intros p d rest IHr Hok fuel Hf. simpl in Hok.
+    apply andb_prop in Hok. destruct Hok as [Hok Hr]. apply andb_prop in Hok. destruct Hok as [Hp Hd].
+    cbn [need needA] in Hf. destruct fuel as [|f]; [lia|].
+    rewrite bexp_S, find_brace_seq by assumption. cbv zeta.
+    destruct (sq_agree d Hd) as (_ & _ & _ & Htack & Hfc & _). rewrite Hfc.
+    change (match seq_term (sq_text d) with
+            | SeqList l => Words l | SeqMany => Many | _ => Words [LB :: sq_text d ++ [RB]] end)
+      with (tack_of (sq_text d)). rewrite Htack.
+    assert (Er: bexp f (U rest) = E rest) by (apply (IHr Hr); lia).
     cbn [E]. destruct (U rest) eqn:EU; [reflexivity|]. rewrite Er. reflexivity.
   - intros t IHt Hok fuel Hf. cbn [need needA] in Hf. simpl in Hok. simpl UA. cbn [EA]. destruct fuel as [|f]; [lia|].
     rewrite amb_one by exact Hok. apply IHt; [exact Hok|lia].
@@ -390,14 +531,22 @@ Proof.
   intros [|x X] [|y Y] HX HY; try congruence. unfold prod. simpl. discriminate.
 Qed.
 
-Lemma T_nonempty : (forall t, T t <> []) /\ (forall m, TA m <> []).
+Lemma T_nonempty : (forall t, ok_wt t = true -> T t <> []) /\ (forall m, ok_alts m = true -> TA m <> []).
 Proof.
-  apply wt_alts_ind; intros; cbn [T TA].
+  apply wt_alts_ind; cbn [T TA].
   - discriminate.
-  - apply prod_nonempty; [apply prod_nonempty; [discriminate|]|assumption].
-    intros E0. apply app_eq_nil in E0. destruct E0; contradiction.
-  - assumption.
-  - intros E0. apply app_eq_nil in E0. destruct E0; contradiction.
+  - intros p a IHa more IHm rest IHr Hok. simpl in Hok.
+    apply andb_prop in Hok. destruct Hok as [Hok Hr]. apply andb_prop in Hok. destruct Hok as [Hok Hm].
+    apply andb_prop in Hok. destruct Hok as [Hp Ha].
+    apply prod_nonempty; [apply prod_nonempty; [discriminate|]|auto].
+    intros E0. apply app_eq_nil in E0. destruct E0 as [E0 _]. now apply IHa.
+  - intros p d rest IHr Hok. simpl in Hok.
+    apply andb_prop in Hok. destruct Hok as [Hok Hr]. apply andb_prop in Hok. destruct Hok as [Hp Hd].
+    destruct (sq_agree d Hd) as (_ & NE & _).
+    apply prod_nonempty; [apply prod_nonempty; [discriminate|exact NE]|auto].
+  - intros t IHt H. now apply IHt.
+  - intros t IHt more IHm Hok. simpl in Hok. apply andb_prop in Hok. destruct Hok as [Ht Hm].
+    intros E0. apply app_eq_nil in E0. destruct E0 as [E0 _]. now apply IHt.
 Qed.
 
 Lemma prod_unit_r : forall X, prod X [[]] = X.
@@ -411,8 +560,9 @@ Proof. reflexivity. Qed.
 
 Lemma U_nil_T : forall t, ok_wt t = true -> U t = [] -> T t = [[]].
 Proof.
-  intros [p|p a more rest] _ H; simpl in *.
+  intros [p|p a more rest|p d rest] _ H; simpl in *.
   - now subst.
+  - exfalso. destruct p; discriminate.
   - exfalso. destruct p; discriminate.
 Qed.
 
@@ -420,7 +570,7 @@ Lemma E_lim : (forall t, ok_wt t = true -> E t = lim (T t)) /\ (forall m, ok_alt
 Proof.
   apply wt_alts_ind.
   - intros p _. reflexivity.
-  - intros p a IHa more IHm rest IHr Hok. simpl in Hok.
+  - intros p a IHa more IHm rest IHr Hok. pose proof Hok as Hok0. simpl in Hok.
     apply andb_prop in Hok. destruct Hok as [Hok Hr]. apply andb_prop in Hok. destruct Hok as [Hok Hm].
     apply andb_prop in Hok. destruct Hok as [Hp Ha].
     cbn [E T]. rewrite (IHa Ha), (IHm Hm), (IHr Hr), sapp_lim, lim_single.
@@ -431,7 +581,16 @@ Proof.
     + rewrite (U_nil_T rest Hr EU), prod_unit_r. reflexivity.
     + rewrite sprod_lim; auto.
       * apply prod_nonempty; auto; discriminate.
-      * apply (proj1 T_nonempty).
+      * now apply (proj1 T_nonempty).
+  - intros p d rest IHr Hok. simpl in Hok.
+    apply andb_prop in Hok. destruct Hok as [Hok Hr]. apply andb_prop in Hok. destruct Hok as [Hp Hd].
+    destruct (sq_agree d Hd) as (_ & NE & _).
+    cbn [E T]. rewrite (IHr Hr), lim_single. rewrite sprod_lim by (auto; discriminate).
+    destruct (U rest) eqn:EU.
+    + rewrite (U_nil_T rest Hr EU), prod_unit_r. reflexivity.
+    + rewrite sprod_lim; auto.
+      * apply prod_nonempty; auto; discriminate.
+      * now apply (proj1 T_nonempty).
   - intros t IHt H. now apply IHt.
   - intros t IHt more IHm Hok. simpl in Hok. apply andb_prop in Hok. destruct Hok as [Ht Hm].
     cbn [EA TA]. now rewrite (IHt Ht), (IHm Hm), sapp_lim.
@@ -445,6 +604,8 @@ Fixpoint parts_of (t : wt) : word * str :=      (* parts appended to the current
   | WGroup p a more rest =>
       (lit_of p ++ PBrace false ((fst (parts_of a) ++ lit_of (snd (parts_of a))) :: elemsA more) :: fst (parts_of rest),
        snd (parts_of rest))
+  | WSeq p d rest =>
+      (lit_of p ++ PBrace true (sq_es d) :: fst (parts_of rest), snd (parts_of rest))
   end
 with elemsA (m : alts) : list word :=
   match m with
@@ -454,7 +615,7 @@ with elemsA (m : alts) : list word :=
 Definition elem (t : wt) : word := fst (parts_of t) ++ lit_of (snd (parts_of t)).
 
 Definition with_found (b : bool) (st : state) : state := mkState (top st) (opn st) b.
-Definition fnd (t : wt) (b : bool) : bool := match t with WEnd _ => b | WGroup _ _ _ _ => true end.
+Definition fnd (t : wt) (b : bool) : bool := match t with WEnd _ => b | _ => true end.
 
 Lemma add_parts_nil : forall st, add_parts [] st = st.
 Proof. intros [tp [|[sq d a] r] fd]; unfold add_parts; simpl; now rewrite app_nil_r. Qed.
@@ -500,6 +661,57 @@ Proof. reflexivity. Qed.
 Lemma scan_rb : forall x pend tp f r fd,
   scan (RB :: x) pend (mkState tp (f :: r) fd) = scan x [] (do_close (flush_frame pend f) r (mkState tp (f :: r) fd)).
 Proof. reflexivity. Qed.
+
+Lemma scan_dots : forall x pend tp f r fd,
+  negb (fseq f) && Nat.ltb 1 (length (felems f)) = false ->
+  scan (DOT :: DOT :: x) pend (mkState tp (f :: r) fd)
+  = scan x [] (do_dots (flush_frame pend f) r (mkState tp (f :: r) fd)).
+Proof. intros x pend tp f r fd H. cbn [scan opn]. evalc. cbv iota. rewrite H. reflexivity. Qed.
+
+Lemma close_parts_seq : forall f, fseq f = true -> (2 <= length (felems f))%nat -> seq_broken (felems f) = false ->
+  close_parts f = ([PBrace true (felems f)], true).
+Proof.
+  intros f Sq L B. unfold close_parts. destruct (felems f) as [|e [|e' es]]; simpl in L; try lia.
+  cbv zeta. rewrite Sq. cbn [negb]. now rewrite B.
+Qed.
+
+Lemma lit_of_ne : forall s, s <> [] -> lit_of s = [PLit s].
+Proof. intros [|c s] H; [congruence|reflexivity]. Qed.
+
+(* the splitter over the text of a clean sequence, from a fresh frame: one sequence BraceExp *)
+Lemma scan_seq : forall d, sq_okb d = true -> forall x tp r fd,
+  scan (sq_text d ++ RB :: x) [] (mkState tp (mkFrame false [] [] :: r) fd)
+  = scan x [] (with_found true (add_parts [PBrace true (sq_es d)] (mkState tp r fd))).
+Proof.
+  intros d H x tp r fd. destruct (sq_plain d H) as (Px & Py & Nx & Ny & Hn).
+  destruct (sq_agree d H) as (_ & _ & Hb & _).
+  unfold sq_text, sq_tail. rewrite <- !app_assoc. rewrite scan_plain by exact Px. simpl app.
+  rewrite scan_dots by reflexivity.
+  assert (E1: do_dots (flush_frame (sx d) (mkFrame false [] [])) r (mkState tp (mkFrame false [] [] :: r) fd)
+              = mkState tp (mkFrame true [[PLit (sx d)]] [] :: r) fd).
+  { unfold do_dots, flush_frame, felems. cbn [fdone facc top found app]. now rewrite (lit_of_ne _ Nx). }
+  rewrite E1. rewrite <- !app_assoc. rewrite scan_plain by exact Py. simpl app.
+  unfold sq_es, sq_more in *.
+  destruct (sn d) as [n|].
+  - destruct Hn as [Pn Nn]. simpl app. rewrite scan_dots by reflexivity.
+    assert (E2: do_dots (flush_frame (sy d) (mkFrame true [[PLit (sx d)]] [])) r (mkState tp (mkFrame true [[PLit (sx d)]] [] :: r) fd)
+                = mkState tp (mkFrame true [[PLit (sx d)]; [PLit (sy d)]] [] :: r) fd).
+    { unfold do_dots, flush_frame, felems. cbn [fdone facc top found app]. now rewrite (lit_of_ne _ Ny). }
+    rewrite E2. rewrite scan_plain by exact Pn. simpl app. rewrite scan_rb. f_equal.
+    unfold do_close. rewrite close_parts_seq.
+    + cbn [found top]. rewrite orb_true_r. unfold flush_frame, felems. cbn [fdone facc fseq app].
+      rewrite (lit_of_ne _ Nn). destruct r as [|g r']; reflexivity.
+    + reflexivity.
+    + unfold flush_frame, felems. cbn [fdone facc app]. rewrite (lit_of_ne _ Nn). simpl. lia.
+    + unfold flush_frame, felems. cbn [fdone facc app]. rewrite (lit_of_ne _ Nn). exact Hb.
+  - simpl app. rewrite scan_rb. f_equal.
+    unfold do_close. rewrite close_parts_seq.
+    + cbn [found top]. rewrite orb_true_r. unfold flush_frame, felems. cbn [fdone facc fseq app].
+      rewrite (lit_of_ne _ Ny). destruct r as [|g r']; reflexivity.
+    + reflexivity.
+    + unfold flush_frame, felems. cbn [fdone facc app]. rewrite (lit_of_ne _ Ny). simpl. lia.
+    + unfold flush_frame, felems. cbn [fdone facc app]. rewrite (lit_of_ne _ Ny). exact Hb.
+Qed.
 
 Lemma close_parts_list : forall f, fseq f = false -> (2 <= length (felems f))%nat ->
   close_parts f = ([PBrace false (felems f)], true).
@@ -549,6 +761,20 @@ Proof.
     rewrite (with_found_add_indep true _ (top S1) (opn S1) _ (found S1)).
     assert (E1: mkState (top S1) (opn S1) (found S1) = S1) by (destruct S1; reflexivity).
     rewrite E1. unfold S1, flush. rewrite !add_parts_add_parts. unfold elem. reflexivity.
+  - (* a sequence *)
+    intros p d rest IHr Hok x st. simpl in Hok.
+    apply andb_prop in Hok. destruct Hok as [Hok Hr]. apply andb_prop in Hok. destruct Hok as [Hp Hd].
+    cbn [U]. rewrite <- app_assoc. rewrite scan_plain by exact Hp. simpl app.
+    rewrite scan_lb. rewrite <- app_assoc. simpl app.
+    destruct st as [tp fs fd].
+    set (S1 := flush p {| top := tp; opn := fs; found := fd |}).
+    assert (ES: open_brace S1 = mkState (top S1) (mkFrame false [] [] :: opn S1) (found S1)) by reflexivity.
+    rewrite ES, (scan_seq d Hd).
+    rewrite (IHr Hr). cbn [parts_of fst snd fnd found with_found]. f_equal.
+    rewrite fnd_true. rewrite add_parts_with_found, with_found_twice.
+    rewrite add_parts_add_parts.
+    assert (E1: mkState (top S1) (opn S1) (found S1) = S1) by (destruct S1; reflexivity).
+    rewrite E1. unfold S1, flush. rewrite !add_parts_add_parts. reflexivity.
   - (* the last alternative, then '}' *)
     intros t IHt Hok x d tp r fd Hd. simpl in Hok. cbn [UA elemsA].
     rewrite (IHt Hok).
@@ -582,31 +808,30 @@ Proof.
   - destruct (c =? LB); [reflexivity|]. destruct (index_byte LB (p ++ LB :: x)); [reflexivity|discriminate].
 Qed.
 
-Theorem split_regular_group : forall p a more rest, ok_wt (WGroup p a more rest) = true ->
-  split_braces (U (WGroup p a more rest)) = (true, elem (WGroup p a more rest)).
+Lemma U_has_lb : forall t, fnd t false = true -> contains_byte LB (U t) = true.
 Proof.
-  intros p a more rest Hok. unfold split_braces.
-  assert (C: contains_byte LB (U (WGroup p a more rest)) = true) by (cbn [U]; apply contains_lb_app).
-  rewrite C. cbn [negb].
-  rewrite <- (app_nil_r (U (WGroup p a more rest))). rewrite (proj1 scan_U _ Hok). cbn [scan].
-  unfold flush, elem. cbn [fnd found add_parts opn top with_found]. cbn [unclosed]. rewrite app_nil_r. reflexivity.
+  intros [p|p a more rest|p d rest] H; [discriminate| |]; cbn [U]; apply contains_lb_app.
 Qed.
 
-(* ------------------------------------------------------------------ Go: bracesSeqRec on trees without sequences *)
+Theorem split_regular_brace : forall t, ok_wt t = true -> fnd t false = true ->
+  split_braces (U t) = (true, elem t).
+Proof.
+  intros t Hok Hf. unfold split_braces. rewrite (U_has_lb t Hf). cbn [negb].
+  rewrite <- (app_nil_r (U t)). rewrite (proj1 scan_U _ Hok). cbn [scan].
+  assert (F: fnd t (found {| top := []; opn := []; found := false |}) = true) by exact Hf.
+  rewrite F. unfold flush, elem. cbn [found add_parts opn top with_found]. cbn [unclosed]. rewrite app_nil_r. reflexivity.
+Qed.
+
+(* ------------------------------------------------------------------ Go: bracesSeqRec on the resulting trees *)
 
 Fixpoint tp_sem (q : part) : list str :=
   match q with
   | PLit s => [s]
-  | PBrace _ es => flat_map (fun e => fold_right (fun x acc => prod (tp_sem x) acc) [[]] e) es
+  | PBrace sq es =>
+      if sq then match seq_values es with Ok v => v | _ => [] end
+      else flat_map (fun e => fold_right (fun x acc => prod (tp_sem x) acc) [[]] e) es
   end.
 Definition TW (w : word) : list str := fold_right (fun x acc => prod (tp_sem x) acc) [[]] w.
-
-Fixpoint noseq_part (q : part) : bool :=
-  match q with
-  | PLit _ => true
-  | PBrace sq es => negb sq && forallb (forallb noseq_part) es
-  end.
-Definition noseq (w : word) : bool := forallb noseq_part w.
 
 Lemma prod_cons_l : forall x X Y, prod (x :: X) Y = map (fun y => x ++ y) Y ++ prod X Y.
 Proof. reflexivity. Qed.
@@ -636,6 +861,11 @@ Proof.
   intros A g l Z. induction l as [|e l IH]; [reflexivity|]. simpl. now rewrite prod_app_l, IH.
 Qed.
 
+Lemma prod_singletons : forall vals Z, flat_map (fun v => prod [v] Z) vals = prod vals Z.
+Proof.
+  intros vals Z. unfold prod. apply flat_map_ext. intros v. simpl. now rewrite app_nil_r.
+Qed.
+
 Lemma TW_cons : forall q w, TW (q :: w) = prod (tp_sem q) (TW w).
 Proof. reflexivity. Qed.
 
@@ -646,14 +876,17 @@ Proof.
   - change ((q :: a) ++ b) with (q :: (a ++ b)). rewrite !TW_cons, IH, prod_assoc. reflexivity.
 Qed.
 
-Lemma tp_sem_brace : forall sq es, tp_sem (PBrace sq es) = flat_map TW es.
+Lemma tp_sem_list : forall es, tp_sem (PBrace false es) = flat_map TW es.
 Proof. reflexivity. Qed.
 
-Lemma flat_res_sem : forall (f : word -> res (list (list str))) (g : word -> list str) es l,
+Lemma tp_sem_seq : forall es, tp_sem (PBrace true es) = match seq_values es with Ok v => v | _ => [] end.
+Proof. reflexivity. Qed.
+
+Lemma flat_res_sem : forall {A} (f : A -> res (list (list str))) (g : A -> list str) es l,
   (forall e l', In e es -> f e = Ok l' -> map (@concat N) l' = g e) ->
   flat_res f es = Ok l -> map (@concat N) l = flat_map g es.
 Proof.
-  intros f g. induction es as [|e es IH]; intros l H R; simpl in R.
+  intros A f g. induction es as [|e es IH]; intros l H R; simpl in R.
   - injection R as <-. reflexivity.
   - destruct (f e) as [le| |] eqn:Fe; try discriminate.
     destruct (flat_res f es) as [lr| |] eqn:Fr; try discriminate.
@@ -662,25 +895,25 @@ Proof.
     + apply IH; [|reflexivity]. intros e' l' Hin. apply H. now right.
 Qed.
 
-Lemma braces_rec_sem : forall fuel w l, noseq w = true -> braces_rec fuel w = Ok l -> map (@concat N) l = TW w.
+Lemma braces_rec_sem : forall fuel w l, braces_rec fuel w = Ok l -> map (@concat N) l = TW w.
 Proof.
-  induction fuel as [|fuel IH]; intros w l Hn R; [discriminate|].
+  induction fuel as [|fuel IH]; intros w l R; [discriminate|].
   destruct w as [|[s|sq es] rest]; simpl in R.
   - injection R as <-. reflexivity.
-  - simpl in Hn. destruct (braces_rec fuel rest) as [l0| |] eqn:R0; try discriminate.
+  - destruct (braces_rec fuel rest) as [l0| |] eqn:R0; try discriminate.
     injection R as <-. rewrite TW_cons. cbn [tp_sem]. rewrite prod_cons_l. cbn [prod flat_map]. rewrite app_nil_r.
-    rewrite <- (IH rest l0 Hn R0). rewrite !map_map. reflexivity.
-  - unfold noseq in Hn. simpl in Hn. apply andb_prop in Hn. destruct Hn as [Hq Hrest].
-    apply andb_prop in Hq. destruct Hq as [Hsq Hes]. apply negb_true_iff in Hsq. subst sq.
-    rewrite TW_cons, tp_sem_brace, prod_flat_map_l.
-    apply (flat_res_sem (fun e => braces_rec fuel (e ++ rest)) (fun e => prod (TW e) (TW rest)) es l); [|exact R].
-    intros e l' Hin Re. rewrite <- TW_app. apply IH; [|exact Re].
-    unfold noseq. rewrite forallb_app. rewrite forallb_forall in Hes. rewrite (Hes e Hin). exact Hrest.
+    rewrite <- (IH rest l0 R0). rewrite !map_map. reflexivity.
+  - destruct sq.
+    + rewrite TW_cons, tp_sem_seq. destruct (seq_values es) as [vals| |]; try discriminate.
+      rewrite <- prod_singletons.
+      apply (flat_res_sem (fun v => braces_rec fuel (PLit v :: rest)) (fun v => prod [v] (TW rest)) vals l); [|exact R].
+      intros v l' _ Rv. change (prod [v] (TW rest)) with (TW (PLit v :: rest)). now apply IH.
+    + rewrite TW_cons, tp_sem_list, prod_flat_map_l.
+      apply (flat_res_sem (fun e => braces_rec fuel (e ++ rest)) (fun e => prod (TW e) (TW rest)) es l); [|exact R].
+      intros e l' Hin Re. rewrite <- TW_app. now apply IH.
 Qed.
 
 (* the tree the splitter builds denotes the declarative product *)
-Lemma noseq_lit_of : forall p, noseq (lit_of p) = true.
-Proof. destruct p; reflexivity. Qed.
 Lemma TW_lit_of : forall p, TW (lit_of p) = [p].
 Proof. destruct p; [reflexivity|]. unfold TW, prod. simpl. now rewrite app_nil_r. Qed.
 
@@ -688,23 +921,22 @@ Lemma elem_group : forall p a more rest,
   elem (WGroup p a more rest) = lit_of p ++ PBrace false (elem a :: elemsA more) :: elem rest.
 Proof. intros. unfold elem. cbn [parts_of fst snd]. now rewrite <- app_assoc. Qed.
 
+Lemma elem_seq : forall p d rest,
+  elem (WSeq p d rest) = lit_of p ++ PBrace true (sq_es d) :: elem rest.
+Proof. intros. unfold elem. cbn [parts_of fst snd]. now rewrite <- app_assoc. Qed.
+
 Lemma elem_sem :
-  (forall t, noseq (elem t) = true /\ TW (elem t) = T t) /\
-  (forall m, forallb noseq (elemsA m) = true /\ flat_map TW (elemsA m) = TA m).
+  (forall t, TW (elem t) = T t) /\ (forall m, flat_map TW (elemsA m) = TA m).
 Proof.
   apply wt_alts_ind.
-  - intros p. unfold elem. cbn [parts_of fst snd app T]. split; [apply noseq_lit_of|apply TW_lit_of].
-  - intros p a [Na Ta] more [Nm Tm] rest [Nr Tr]. rewrite elem_group. split.
-    + unfold noseq in *. rewrite forallb_app. cbn [forallb noseq_part negb andb].
-      fold (noseq (lit_of p)). rewrite noseq_lit_of. cbn [andb].
-      change (forallb (forallb noseq_part) (elem a :: elemsA more)) with (forallb noseq (elem a :: elemsA more)).
-      cbn [forallb]. rewrite Na. cbn [andb].
-      change (forallb (forallb noseq_part) (elemsA more)) with (forallb (fun w : word => forallb noseq_part w) (elemsA more)).
-      rewrite Nm. exact Nr.
-    + rewrite TW_app, TW_cons, TW_lit_of, tp_sem_brace. cbn [flat_map]. rewrite Ta, Tm, Tr. cbn [T].
-      now rewrite prod_assoc.
-  - intros t [Nt Tt]. cbn [elemsA forallb flat_map TA]. fold (elem t). rewrite Nt, Tt, app_nil_r. auto.
-  - intros t [Nt Tt] more [Nm Tm]. cbn [elemsA forallb flat_map TA]. fold (elem t). rewrite Nt, Tt, Nm, Tm. auto.
+  - intros p. unfold elem. cbn [parts_of fst snd app T]. apply TW_lit_of.
+  - intros p a Ta more Tm rest Tr. rewrite elem_group.
+    rewrite TW_app, TW_cons, TW_lit_of, tp_sem_list. cbn [flat_map]. rewrite Ta, Tm, Tr. cbn [T].
+    now rewrite prod_assoc.
+  - intros p d rest Tr. rewrite elem_seq.
+    rewrite TW_app, TW_cons, TW_lit_of, tp_sem_seq, Tr. cbn [T]. fold (sq_vals d). now rewrite prod_assoc.
+  - intros t Tt. cbn [elemsA flat_map TA]. fold (elem t). now rewrite Tt, app_nil_r.
+  - intros t Tt more Tm. cbn [elemsA flat_map TA]. fold (elem t). now rewrite Tt, Tm.
 Qed.
 
 (* ------------------------------------------------------------------ the theorem *)
@@ -712,19 +944,20 @@ Qed.
 Theorem expand_matches_spec_regular : forall t, ok_wt t = true -> to_sres (expand_word (U t)) = spec (U t).
 Proof.
   intros t Hok. rewrite (spec_regular t Hok), (proj1 E_lim t Hok).
-  destruct t as [p|p a more rest].
-  - simpl in Hok. cbn [U T]. destruct (no_brace_word p (plain_no_lb p Hok)) as [-> _]. reflexivity.
-  - pose proof (split_regular_group p a more rest Hok) as HS.
-    pose proof (split_wf (U (WGroup p a more rest))) as W. rewrite HS in W. cbn [snd] in W.
-    unfold expand_word. rewrite HS. set (q := elem (WGroup p a more rest)) in *.
-    destruct (proj1 elem_sem (WGroup p a more rest)) as [Nq Tq]. fold q in Nq, Tq.
+  destruct (fnd t false) eqn:Hf.
+  - pose proof (split_regular_brace t Hok Hf) as HS.
+    pose proof (split_wf (U t)) as W. rewrite HS in W. cbn [snd] in W.
+    unfold expand_word. rewrite HS. set (q := elem t) in *.
+    pose proof (proj1 elem_sem t) as Tq. fold q in Tq.
     unfold expand.
     pose proof (braces_rec_no_panic (S (word_size q)) q W) as NP.
     pose proof (fun c => braces_rec_fuel (S (word_size q)) q c (Nat.lt_succ_diag_r _)) as NF.
     destruct (braces_rec (S (word_size q)) q) as [l|c|] eqn:R; [|exfalso; now apply (NF c)|congruence].
-    pose proof (braces_rec_sem _ _ _ Nq R) as Sem. rewrite Tq in Sem.
+    pose proof (braces_rec_sem _ _ _ R) as Sem. rewrite Tq in Sem.
     unfold lim. rewrite <- Sem, map_length. unfold str in *.
     destruct (Nat.ltb limit (length l)); reflexivity.
+  - destruct t as [p|p a more rest|p d rest]; try discriminate.
+    simpl in Hok. cbn [U T]. destruct (no_brace_word p (plain_no_lb p Hok)) as [-> _]. reflexivity.
 Qed.
 
 (* ------------------------------------------------------------------ a decidable recogniser of the scope *)
